@@ -48,6 +48,19 @@ CHECKS["C08"] = dict(level="exploration", design="4/C08", engine="module-generat
     technique="metamorphic property-based testing: same module under drawn include_undocumented_* vectors vs the default run, plus AST knowledge",
     text="Each generated module (documented and undocumented commands of all ten kinds, documented/undocumented classes and members, nesting) is documented under the default flags and under 1-6 drawn flag vectors; every doc-carrying entry must persist with an identical own rendering, no entry may be named after an undocumented command whose flag is off, members of hidden classes must not appear. Known finding P10 (documented class + cpp_class flag off) is reported as KNOWN-FINDING and its clauses are skipped only inside that region.",
     note=GEN_NOTE + "Entries are matched by unique names and doc markers; nothing is asserted about undocumented entries of kinds that stay on.")
+SBX_NOTE = "Runs cminx.main in-process inside a /dev/shm sandbox with cwd, user-config directory and os.scandir order owned by the harness; trusts the walk model / pattern matcher in vlib/gen_tree.py (written from the property text; the matcher is cross-checked against pathspec on every pair). Symlinks and unreadable entries are not generated."
+CHECKS["C13"] = dict(level="exploration", design="4/C13", engine="sandbox-and-walk-model",
+    technique="property-based testing: generated directory trees x options x listing permutations, walk model + single-file differential",
+    text="Generated trees (empty dirs, non-CMake look-alike files, mixed-case extensions, dotted/dashed names) are documented under drawn recursive/auto-exclusion/prefix/output-location/listing-order choices; the output tree must equal the model's expected file and directory set exactly and every page must equal the single-file run of its source modulo title and module name.",
+    note=SBX_NOTE)
+CHECKS["C14"] = dict(level="exploration", design="4/C14", engine="sandbox-and-walk-model",
+    technique="property-based testing: generated trees x patterns x auto-exclusion, closure invariant over the written index.rst graph",
+    text="For trees crossed with exclude patterns, auto-exclusion, recursion, prefixes and listing orders, every index.rst must hold one toctree whose entries are distinct, equal the pages present beside it and (recursive) the sub-indexes present below it, every target must exist, every page and index must be reachable from the top index, titles must name the directory; where the walk model is unambiguous the indexed directories must equal the processed ones.",
+    note=SBX_NOTE)
+CHECKS["C15"] = dict(level="exploration", design="4/C15", engine="sandbox-and-walk-model",
+    technique="property-based testing: generated trees x gitignore pattern sets x pattern sources x listing permutations, independent matcher cross-checked with pathspec",
+    text="Pattern sets built from the tree's own names (bare names, dir/, globs, **/ forms, absolute paths, the input path) are delivered through -e, -s and the user configuration under permuted directory listings; a page must exist iff neither the file nor a directory above it matches, excluded directories must have no output, an excluded input no output at all.",
+    note=SBX_NOTE)
 NOT_APPLICABLE = [
 ]
 
@@ -85,6 +98,8 @@ def main():
             "add_only": True,
         },
         "engines": [
+            {"name": "sandbox-and-walk-model", "path": "vlib/sandbox.py", "serves_properties": ["C12", "C13", "C14", "C15", "C16", "C17", "C18", "C19"],
+             "kind_free_text": "tree strategies and reference walk/pattern model (vlib/gen_tree.py), /dev/shm sandboxes, scandir-order shim, in-process and subprocess CLI runners, snapshots (vlib/sandbox.py)"},
             {"name": "module-generator-and-model", "path": "vlib/", "serves_properties": ["C01", "C02", "C03", "C04", "C07", "C08", "C09", "C10", "C11", "C12"],
              "kind_free_text": "Hypothesis strategies for CMake module ASTs (vlib/gen_cmake.py), layout-driven renderer (vlib/render.py), reference semantics (vlib/model.py), reST views (vlib/rstview.py), field-level comparison (vlib/compare.py)"},
             {"name": "stateful-writer-model", "path": "props/C20.py", "serves_properties": ["C20"],
